@@ -22,6 +22,10 @@ pub enum Out {
     Unit,
     Count(usize),
     Bytes(Vec<u8>),
+    /// A scalar result (socket option value, file size from statx).
+    Value(u64),
+    /// Received bytes and the sender address the kernel reported.
+    BytesFrom(Vec<u8>, String),
     Err { raw: Option<i32>, kind: io::ErrorKind },
 }
 
@@ -60,6 +64,21 @@ pub enum OpKind {
     WriteVec { len: u16 },
     /// `AsyncFd::read(Vec<u8>)` with `prefill` bytes already in the vector.
     ReadVec { cap: u16, prefill: u16 },
+    /// `AsyncFd::write_vectored([Vec<u8>; 2])`: iovec array + two buffers.
+    WriteVectored { a: u16, b: u16 },
+    /// `AsyncFd::read_vectored([Vec<u8>; 2])`.
+    ReadVectored { a: u16, b: u16 },
+    /// `AsyncFd::send_to(Vec<u8>, SocketAddr)`: buffer + address storage.
+    SendTo { len: u16, v6: bool },
+    /// `AsyncFd::recv_from::<Vec<u8>, SocketAddr>`: msghdr, iovec, address
+    /// storage and buffer, all written by the kernel.
+    RecvFrom { cap: u16 },
+    /// `AsyncFd::socket_option::<RecvBuf>()`: option value out-parameter.
+    SockOpt,
+    /// `AsyncFd::metadata()`: statx result buffer inside the operation.
+    Statx,
+    /// `AsyncFd::connect(SocketAddr)`: address storage read by the kernel.
+    Connect { v6: bool },
 }
 
 impl OpKind {
@@ -69,13 +88,20 @@ impl OpKind {
             OpKind::WriteStatic { .. } => "write[static]",
             OpKind::WriteVec { .. } => "write[vec]",
             OpKind::ReadVec { .. } => "read[vec]",
+            OpKind::WriteVectored { .. } => "write_vectored",
+            OpKind::ReadVectored { .. } => "read_vectored",
+            OpKind::SendTo { .. } => "send_to",
+            OpKind::RecvFrom { .. } => "recv_from",
+            OpKind::SockOpt => "socket_option",
+            OpKind::Statx => "metadata",
+            OpKind::Connect { .. } => "connect",
         }
     }
     pub fn has_memory(&self) -> bool {
         !matches!(self, OpKind::Truncate)
     }
     pub fn valued(&self) -> bool {
-        !matches!(self, OpKind::Truncate)
+        !matches!(self, OpKind::Truncate | OpKind::Connect { .. })
     }
 }
 
@@ -146,6 +172,8 @@ pub enum Expect {
     Count(usize),
     /// The buffer handed back must be `bytes`.
     Bytes(Vec<u8>),
+    Value(u64),
+    BytesFrom(Vec<u8>, String),
     Errno(i32),
 }
 
@@ -220,6 +248,79 @@ impl OpState {
                     Err(e) => Out::from_err(&e),
                 })
             }
+            OpKind::WriteVectored { a, b } => {
+                let (va, vb): (Vec<u8>, Vec<u8>) = {
+                    let _s = track::scope(track::TAG_RESOURCE);
+                    ((0..*a as usize).map(|j| pattern_byte(id, j)).collect(), (0..*b as usize).map(|j| pattern_byte(id + 5, j)).collect())
+                };
+                st.source = [va.clone(), vb.clone()].concat();
+                st.buf_addr = va.as_ptr().addr();
+                let _s = track::scope(track::TAG_A10);
+                boxed(afd.write_vectored([va, vb]), |r| match r {
+                    Ok(n) => Out::Count(n),
+                    Err(e) => Out::from_err(&e),
+                })
+            }
+            OpKind::ReadVectored { a, b } => {
+                let (va, vb): (Vec<u8>, Vec<u8>) = {
+                    let _s = track::scope(track::TAG_RESOURCE);
+                    (Vec::with_capacity((*a as usize).max(1)), Vec::with_capacity((*b as usize).max(1)))
+                };
+                st.buf_addr = va.as_ptr().addr();
+                let _s = track::scope(track::TAG_A10);
+                boxed(afd.read_vectored([va, vb]), |r| match r {
+                    Ok([x, y]) => Out::Bytes([x, y].concat()),
+                    Err(e) => Out::from_err(&e),
+                })
+            }
+            OpKind::SendTo { len, v6 } => {
+                let buf: Vec<u8> = {
+                    let _s = track::scope(track::TAG_RESOURCE);
+                    (0..*len as usize).map(|j| pattern_byte(id, j)).collect()
+                };
+                st.source = buf.clone();
+                st.buf_addr = buf.as_ptr().addr();
+                let addr = sock_addr(id, *v6);
+                let _s = track::scope(track::TAG_A10);
+                boxed(afd.send_to(buf, addr), |r| match r {
+                    Ok(n) => Out::Count(n),
+                    Err(e) => Out::from_err(&e),
+                })
+            }
+            OpKind::RecvFrom { cap } => {
+                let buf: Vec<u8> = {
+                    let _s = track::scope(track::TAG_RESOURCE);
+                    Vec::with_capacity((*cap as usize).max(1))
+                };
+                st.buf_addr = buf.as_ptr().addr();
+                let _s = track::scope(track::TAG_A10);
+                boxed(afd.recv_from::<Vec<u8>, std::net::SocketAddr>(buf), |r| match r {
+                    Ok((v, addr, _)) => Out::BytesFrom(v, addr.to_string()),
+                    Err(e) => Out::from_err(&e),
+                })
+            }
+            OpKind::SockOpt => {
+                let _s = track::scope(track::TAG_A10);
+                boxed(afd.socket_option::<a10::net::option::RecvBuf>(), |r| match r {
+                    Ok(v) => Out::Value(v as u64),
+                    Err(e) => Out::from_err(&e),
+                })
+            }
+            OpKind::Statx => {
+                let _s = track::scope(track::TAG_A10);
+                boxed(afd.metadata(), |r| match r {
+                    Ok(m) => Out::Value(m.len()),
+                    Err(e) => Out::from_err(&e),
+                })
+            }
+            OpKind::Connect { v6 } => {
+                let addr = sock_addr(id, *v6);
+                let _s = track::scope(track::TAG_A10);
+                boxed(afd.connect(addr), |r| match r {
+                    Ok(()) => Out::Unit,
+                    Err(e) => Out::from_err(&e),
+                })
+            }
         };
         (st, fut)
     }
@@ -244,6 +345,22 @@ impl OpState {
                     // An empty vector has a dangling pointer; any address is fine.
                     want.addr = sqe.addr;
                 }
+            }
+            OpKind::WriteVectored { .. } | OpKind::ReadVectored { .. } | OpKind::SendTo { .. } | OpKind::RecvFrom { .. } | OpKind::SockOpt | OpKind::Statx | OpKind::Connect { .. } => {
+                // Opcode and descriptor only: the full encodings are C13's.
+                let opcode = match &self.kind {
+                    OpKind::WriteVectored { .. } => abi::OP_WRITEV,
+                    OpKind::ReadVectored { .. } => abi::OP_READV,
+                    OpKind::SendTo { .. } => abi::OP_SEND,
+                    OpKind::RecvFrom { .. } => abi::OP_RECVMSG,
+                    OpKind::SockOpt => abi::OP_URING_CMD,
+                    OpKind::Statx => abi::OP_STATX,
+                    _ => abi::OP_CONNECT,
+                };
+                if sqe.opcode != opcode || sqe.fd != self.fd_raw {
+                    return Err(format!("submission of {} has opcode {} on descriptor {}, expected opcode {opcode} on {}", self.kind.name(), sqe.opcode, sqe.fd, self.fd_raw));
+                }
+                return Ok(());
             }
             OpKind::ReadVec { cap, prefill } => {
                 let cap = (*cap as usize).max(1);
@@ -292,6 +409,120 @@ impl OpState {
                 self.expect = Some(Expect::Count(n));
                 Ok((n as i32, 0))
             }
+            OpKind::WriteVectored { .. } => {
+                let mut seen = Vec::new();
+                for region in req.regions.iter().filter(|r| r.what == "iovec-target") {
+                    match regions::read_region(region, 0, region.len) {
+                        Some(bytes) => seen.extend_from_slice(&bytes),
+                        None => return Err("C01:region-moved: a vectored source buffer is no longer where the iovec said".into()),
+                    }
+                }
+                if seen != self.source {
+                    return Err("C01:source-buffer-changed: the bytes the iovecs designate are not the caller's buffers".into());
+                }
+                let n = scale(self.source.len());
+                self.expect = Some(Expect::Count(n));
+                Ok((n as i32, 0))
+            }
+            OpKind::ReadVectored { .. } => {
+                let targets: Vec<&regions::Region> = req.regions.iter().filter(|r| r.what == "iovec-target").collect();
+                let total: usize = targets.iter().map(|r| r.len).sum();
+                let n = scale(total);
+                let data: Vec<u8> = (0..n).map(|j| pattern_byte(self.id, j)).collect();
+                let mut off = 0;
+                for r in targets {
+                    let take = (n - off).min(r.len);
+                    if take > 0 && !regions::write_region(r, 0, &data[off..off + take]) {
+                        return Err("C01:region-moved: a vectored destination buffer is no longer where the iovec said".into());
+                    }
+                    off += take;
+                }
+                self.expect = Some(Expect::Bytes(data));
+                Ok((n as i32, 0))
+            }
+            OpKind::SendTo { v6, .. } => {
+                if let Some(region) = req.regions.iter().find(|r| r.what == "buffer") {
+                    match regions::read_region(region, 0, region.len) {
+                        Some(seen) if seen == self.source => {}
+                        Some(_) => return Err("C01:source-buffer-changed: bytes of the source buffer changed while the kernel held it".into()),
+                        None => return Err("C01:region-moved: source buffer no longer where the submission said".into()),
+                    }
+                }
+                match req.regions.iter().find(|r| r.what == "send-address") {
+                    Some(region) => match regions::read_region(region, 0, region.len) {
+                        Some(raw) if raw_matches(&raw, self.id, *v6) => {}
+                        Some(raw) => return Err(format!("C01:address-changed: the destination address the kernel reads is {raw:?}, not the caller's")),
+                        None => return Err("C01:region-moved: address storage no longer where the submission said".into()),
+                    },
+                    None => return Err("C01:region-not-owned: the submission designates no readable destination address".into()),
+                }
+                let n = scale(self.source.len());
+                self.expect = Some(Expect::Count(n));
+                Ok((n as i32, 0))
+            }
+            OpKind::RecvFrom { .. } => {
+                let Some(target) = req.regions.iter().find(|r| r.what == "iovec-target") else {
+                    return Err("C01:region-not-owned: recvmsg request without a valid iovec target".into());
+                };
+                let n = scale(target.len);
+                let data: Vec<u8> = (0..n).map(|j| pattern_byte(self.id, j)).collect();
+                if !regions::write_region(target, 0, &data) {
+                    return Err("C01:region-moved: destination buffer no longer where the iovec said".into());
+                }
+                // The sender's address and its length.
+                let from = sock_addr(self.id + 1000, false);
+                let raw = raw_v4(&from);
+                let (Some(name), Some(hdr)) = (req.regions.iter().find(|r| r.what == "msg-name"), req.regions.iter().find(|r| r.what == "msghdr")) else {
+                    return Err("C01:region-not-owned: recvmsg request without valid msghdr/address storage".into());
+                };
+                if name.len < raw.len() || !regions::write_region(name, 0, &raw) {
+                    return Err("C01:region-moved: address storage no longer where the msghdr said".into());
+                }
+                let namelen_off = std::mem::offset_of!(libc::msghdr, msg_namelen);
+                if !regions::write_region(hdr, namelen_off, &(raw.len() as u32).to_ne_bytes()) {
+                    return Err("C01:region-moved: msghdr no longer where the submission said".into());
+                }
+                self.expect = Some(Expect::BytesFrom(data, from.to_string()));
+                Ok((n as i32, 0))
+            }
+            OpKind::SockOpt => {
+                let Some(region) = req.regions.iter().find(|r| r.what == "optval") else {
+                    return Err("C01:region-not-owned: getsockopt request without a valid option buffer".into());
+                };
+                let value = 4096u32 + (*frac as u32);
+                if region.len < 4 || !regions::write_region(region, 0, &value.to_ne_bytes()) {
+                    return Err("C01:region-moved: option buffer no longer where the submission said".into());
+                }
+                self.expect = Some(Expect::Value(value as u64));
+                Ok((4, 0))
+            }
+            OpKind::Statx => {
+                let Some(region) = req.regions.iter().find(|r| r.what == "statx") else {
+                    return Err("C01:region-not-owned: statx request without a valid result buffer".into());
+                };
+                let mut stx: libc::statx = unsafe { std::mem::zeroed() };
+                stx.stx_mask = libc::STATX_BASIC_STATS;
+                stx.stx_mode = libc::S_IFREG as u16 | 0o644;
+                stx.stx_size = 7_000_000 + *frac as u64 + self.id as u64 * 65_536;
+                let raw = unsafe { std::slice::from_raw_parts((&raw const stx).cast::<u8>(), size_of::<libc::statx>()) };
+                if !regions::write_region(region, 0, raw) {
+                    return Err("C01:region-moved: statx buffer no longer where the submission said".into());
+                }
+                self.expect = Some(Expect::Value(stx.stx_size));
+                Ok((0, 0))
+            }
+            OpKind::Connect { v6 } => {
+                match req.regions.iter().find(|r| r.what == "address") {
+                    Some(region) => match regions::read_region(region, 0, region.len) {
+                        Some(raw) if raw_matches(&raw, self.id, *v6) => {}
+                        Some(raw) => return Err(format!("C01:address-changed: the address the kernel reads is {raw:?}, not the caller's")),
+                        None => return Err("C01:region-moved: address storage no longer where the submission said".into()),
+                    },
+                    None => return Err("C01:region-not-owned: connect request without a readable address".into()),
+                }
+                self.expect = Some(Expect::Unit);
+                Ok((0, 0))
+            }
             OpKind::ReadVec { .. } => {
                 let Some(region) = req.regions.iter().find(|r| r.what == "buffer") else {
                     self.expect = Some(Expect::Bytes(self.before.clone()));
@@ -319,6 +550,12 @@ impl OpState {
                 let _ = regions::write_region(region, 0, &junk);
             }
         }
+        if matches!(self.kind, OpKind::ReadVectored { .. } | OpKind::RecvFrom { .. }) {
+            for region in req.regions.iter().filter(|r| r.what == "iovec-target") {
+                let junk = vec![0xEEu8; region.len.min(64)];
+                let _ = regions::write_region(region, 0, &junk);
+            }
+        }
     }
 
     /// Compare what the future returned with the expectation.
@@ -330,6 +567,8 @@ impl OpState {
             (Expect::Unit, Out::Unit) => true,
             (Expect::Count(n), Out::Count(m)) => n == m,
             (Expect::Bytes(b), Out::Bytes(c)) => b == c,
+            (Expect::Value(a), Out::Value(b)) => a == b,
+            (Expect::BytesFrom(b, a), Out::BytesFrom(c, d)) => b == c && a == d,
             (Expect::Errno(e), Out::Err { raw, .. }) => *raw == Some(*e),
             _ => false,
         };
@@ -337,9 +576,42 @@ impl OpState {
     }
 }
 
+/// The address operation `id` talks to.
+pub fn sock_addr(id: usize, v6: bool) -> std::net::SocketAddr {
+    let port = 1024 + (id as u16 % 60_000);
+    if v6 {
+        std::net::SocketAddr::V6(std::net::SocketAddrV6::new(std::net::Ipv6Addr::new(0xfd00, id as u16, 0, 0, 0, 0, 0, 1), port, 0, 0))
+    } else {
+        std::net::SocketAddr::V4(std::net::SocketAddrV4::new(std::net::Ipv4Addr::new(10, (id >> 8) as u8, id as u8, 1), port))
+    }
+}
+
+fn raw_v4(addr: &std::net::SocketAddr) -> Vec<u8> {
+    let std::net::SocketAddr::V4(a) = addr else { return Vec::new() };
+    let mut s: libc::sockaddr_in = unsafe { std::mem::zeroed() };
+    s.sin_family = libc::AF_INET as u16;
+    s.sin_port = a.port().to_be();
+    s.sin_addr.s_addr = u32::from_ne_bytes(a.ip().octets());
+    unsafe { std::slice::from_raw_parts((&raw const s).cast::<u8>(), size_of::<libc::sockaddr_in>()) }.to_vec()
+}
+
+/// Does the raw socket address the kernel read designate `sock_addr(id, v6)`?
+fn raw_matches(raw: &[u8], id: usize, v6: bool) -> bool {
+    let want = sock_addr(id, v6);
+    if raw.len() < 2 {
+        return false;
+    }
+    let family = u16::from_ne_bytes([raw[0], raw[1]]) as i32;
+    match want {
+        std::net::SocketAddr::V4(a) => family == libc::AF_INET && raw.len() >= 8 && raw[2..4] == a.port().to_be_bytes() && raw[4..8] == a.ip().octets(),
+        std::net::SocketAddr::V6(a) => family == libc::AF_INET6 && raw.len() >= 24 && raw[2..4] == a.port().to_be_bytes() && raw[8..24] == a.ip().octets(),
+    }
+}
+
 fn brief(out: &Out) -> String {
     match out {
         Out::Bytes(b) if b.len() > 16 => format!("Bytes(len {}, {:?}..)", b.len(), &b[..16]),
+        Out::BytesFrom(b, a) if b.len() > 16 => format!("BytesFrom(len {}, {:?}.., {a})", b.len(), &b[..16]),
         o => format!("{o:?}"),
     }
 }
@@ -347,6 +619,7 @@ fn brief(out: &Out) -> String {
 fn brief_expect(e: &Expect) -> String {
     match e {
         Expect::Bytes(b) if b.len() > 16 => format!("Bytes(len {}, {:?}..)", b.len(), &b[..16]),
+        Expect::BytesFrom(b, a) if b.len() > 16 => format!("BytesFrom(len {}, {:?}.., {a})", b.len(), &b[..16]),
         o => format!("{o:?}"),
     }
 }
